@@ -29,12 +29,12 @@
 (***************************************************************************)
 EXTENDS Naturals, Sequences, FiniteSets, TLC, Json, IOUtils
 
-NL == 10  TAB == 9  CR == 13  SP == 32
+NL == 10  TAB == 9  CR == 13  SP == 32  VT == 11  FF == 12
 QUOTE == 34  HASH == 35  APOS == 39  LP == 40  RP == 41  STAR == 42
 SLASH == 47  SEMI == 59  LB == 91  BSL == 92  RB == 93  BT == 96
 LC == 123  RC == 125
 
-IsSpace(c) == c \in {SP, NL, TAB, CR}
+IsSpace(c) == c \in {SP, NL, TAB, CR, VT, FF}   \* ASCII layout characters
 IsWord(c)  == \/ (c >= 48 /\ c <= 57) \/ (c >= 65 /\ c <= 90)
               \/ (c >= 97 /\ c <= 122) \/ c = 95 \/ c = 64 \/ c = 36
 Opening == {LP, LB, LC}
@@ -236,16 +236,27 @@ Decode(l) ==
 (* before token b+1.  A nest [w, d, k] puts d >= 2 pairs of redundant      *)
 (* parentheses around range w with noise k between every two layers, on    *)
 (* the opening and on the closing side:  ( k ( k ( e ) k ) k ).            *)
-NoiseKinds == {"sp", "nl", "hash", "block"}
-EmptyLayout == [sites |-> {}, wraps |-> {}, nests |-> {}, semi |-> 0]
+(* An *empty statement* [b, c] puts an extra ';' at a statement boundary b *)
+(* (before the first token, after the last one, next to a ';' token):      *)
+(* c = 0 just ';', c = 1 a comment-only statement '; /* c */ ;',           *)
+(* c = 2 ';' + # comment + ';'.                                            *)
+NoiseKinds == {"sp", "nl", "hash", "block", "tab", "cr", "ff", "vt", "crlf"}
+EmptyLayout == [sites |-> {}, wraps |-> {}, nests |-> {}, empties |-> {},
+                semi |-> 0]
 LayoutSize(lay) == Cardinality(lay.sites) + Cardinality(lay.wraps)
-                   + Cardinality(lay.nests) + lay.semi
+                   + Cardinality(lay.nests) + Cardinality(lay.empties)
+                   + lay.semi
 
 NoiseText(k, cfill) ==
   CASE k = "sp"    -> <<SP>>
     [] k = "nl"    -> <<NL>>
     [] k = "hash"  -> <<HASH>> \o cfill \o <<NL>>
     [] k = "block" -> <<SLASH, STAR>> \o cfill \o <<STAR, SLASH>>
+    [] k = "tab"   -> <<TAB>>
+    [] k = "cr"    -> <<CR>>
+    [] k = "ff"    -> <<FF>>
+    [] k = "vt"    -> <<VT>>
+    [] k = "crlf"  -> <<CR, NL>>
 
 SiteText(c, lay, b, pos) ==
   LET here == {s \in lay.sites : s.b = b /\ s.pos = pos} IN
@@ -262,6 +273,15 @@ NestText(c, lay, ch, sel, noisy) ==   \* sel: the nests that open / close here
   ELSE LET n == CHOOSE x \in sel : TRUE IN
        Layers(ch, n.d, IF noisy THEN NoiseText(n.k, c.cfill) ELSE <<>>)
 
+EmptyText(c, lay, b, noisy) ==
+  LET here == {e \in lay.empties : e.b = b} IN
+  IF here = {} THEN <<>>
+  ELSE LET e == CHOOSE x \in here : TRUE IN
+       IF e.c = 0 THEN <<SEMI>>
+       ELSE <<SEMI>> \o (IF noisy THEN NoiseText(IF e.c = 1 THEN "block" ELSE "hash",
+                                                 c.cfill) ELSE <<>>)
+            \o <<SEMI>>
+
 (* What stands at boundary b: closing redundant parentheses of ranges that *)
 (* end at token b, the trailing ';', noise, the canonical space, noise,    *)
 (* opening redundant parentheses of ranges that start at token b+1.        *)
@@ -270,6 +290,7 @@ Boundary(c, lay, b, noisy) ==
   Rep(RP, Cardinality({w \in lay.wraps : c.ranges[w][2] = b}))
   \o NestText(c, lay, RP, {x \in lay.nests : c.ranges[x.w][2] = b}, noisy)
   \o (IF b = n /\ lay.semi = 1 THEN <<SEMI>> ELSE <<>>)
+  \o EmptyText(c, lay, b, noisy)
   \o (IF noisy THEN SiteText(c, lay, b, "L") ELSE <<>>)
   \o (IF c.sep[b + 1] = 1 THEN <<SP>> ELSE <<>>)
   \o (IF noisy THEN SiteText(c, lay, b, "R") ELSE <<>>)
@@ -302,6 +323,12 @@ WrapRange(lay, w) == [lay EXCEPT !.wraps = @ \cup {w}]
 AddSemi(lay) == [lay EXCEPT !.semi = 1]
 (* at most one nest opens and one nest closes at a boundary, and a range   *)
 (* is either wrapped once or nested                                        *)
+CanEmpty(c, lay, b) ==
+  /\ b \in 0..Len(c.toks)
+  /\ IF b = 0 \/ b = Len(c.toks) THEN TRUE
+     ELSE c.toks[b] = <<SEMI>> \/ c.toks[b + 1] = <<SEMI>>
+  /\ ~\E e \in lay.empties : e.b = b
+AddEmpty(lay, b, cc) == [lay EXCEPT !.empties = @ \cup {[b |-> b, c |-> cc]}]
 CanNest(c, lay, w) ==
   /\ w \in 1..Len(c.ranges) /\ w \notin lay.wraps
   /\ \A x \in lay.nests : /\ c.ranges[x.w][1] # c.ranges[w][1]
